@@ -123,3 +123,107 @@ pub fn lace(args: &[&str], cwd: &Path, stdin: &[u8], release: bool, limit_s: u64
         timed_out: timed.load(Ordering::SeqCst),
     }
 }
+
+/// Run `lace <args>` with a pseudo-terminal as standard input (and controlling terminal) and type
+/// `keys` into it, one key at a time, each only while the program has the terminal in raw mode
+/// (i.e. is waiting for a key). stdout / stderr are pipes as in `lace()`. Returns the run and the
+/// number of keys that were typed before the program ended.
+pub fn lace_tty(args: &[&str], cwd: &Path, keys: &[Vec<u8>], release: bool, limit_s: u64) -> (Run, usize) {
+    use std::io::Read;
+    use std::os::unix::io::FromRawFd;
+    use std::os::unix::process::{CommandExt, ExitStatusExt};
+    let (mut master, mut slave) = (0 as libc::c_int, 0 as libc::c_int);
+    let rc = unsafe { libc::openpty(&mut master, &mut slave, std::ptr::null_mut(), std::ptr::null_mut(), std::ptr::null_mut()) };
+    assert!(rc == 0, "openpty failed");
+    let mut cmd = Command::new(lace_bin(release));
+    cmd.args(args)
+        .current_dir(cwd)
+        .env("NO_COLOR", "1")
+        .env_remove("CLICOLOR_FORCE")
+        .env("RUST_BACKTRACE", "0")
+        .env("TERM", "xterm")
+        .stdin(unsafe { Stdio::from_raw_fd(libc::dup(slave)) })
+        .stdout(Stdio::piped())
+        .stderr(Stdio::piped());
+    unsafe {
+        cmd.pre_exec(|| {
+            // own session with the pty as controlling terminal, so that /dev/tty is the pty too
+            libc::setsid();
+            libc::ioctl(0, libc::TIOCSCTTY, 0);
+            Ok(())
+        });
+    }
+    let mut child = cmd.spawn().expect("spawn lace on a pty");
+    unsafe {
+        libc::close(slave);
+        let fl = libc::fcntl(master, libc::F_GETFL);
+        libc::fcntl(master, libc::F_SETFL, fl | libc::O_NONBLOCK);
+    }
+    let mut so = child.stdout.take().unwrap();
+    let mut se = child.stderr.take().unwrap();
+    let t_out = std::thread::spawn(move || {
+        let mut v = Vec::new();
+        let _ = so.read_to_end(&mut v);
+        v
+    });
+    let t_err = std::thread::spawn(move || {
+        let mut v = Vec::new();
+        let _ = se.read_to_end(&mut v);
+        v
+    });
+    let t0 = std::time::Instant::now();
+    let mut timed_out = false;
+    let mut typed = 0usize;
+    let raw_mode = |fd: libc::c_int| -> bool {
+        let mut t: libc::termios = unsafe { std::mem::zeroed() };
+        unsafe { libc::tcgetattr(fd, &mut t) == 0 && (t.c_lflag & libc::ICANON) == 0 }
+    };
+    let drain = |fd: libc::c_int| {
+        let mut buf = [0u8; 4096];
+        while unsafe { libc::read(fd, buf.as_mut_ptr() as *mut libc::c_void, buf.len()) } > 0 {}
+    };
+    let mut status = None;
+    'outer: loop {
+        // wait for the next moment at which a key may be typed, or for the end of the program
+        loop {
+            if let Ok(Some(st)) = child.try_wait() {
+                status = Some(st);
+                break 'outer;
+            }
+            if t0.elapsed().as_secs() >= limit_s {
+                timed_out = true;
+                let _ = child.kill();
+                break 'outer;
+            }
+            drain(master);
+            if typed < keys.len() && raw_mode(master) {
+                break;
+            }
+            std::thread::sleep(std::time::Duration::from_micros(500));
+        }
+        let k = &keys[typed];
+        unsafe {
+            libc::write(master, k.as_ptr() as *const libc::c_void, k.len());
+        }
+        typed += 1;
+        // the key is taken when the program leaves raw mode again (or ends)
+        let t1 = std::time::Instant::now();
+        while raw_mode(master) && t1.elapsed().as_millis() < 3000 {
+            if let Ok(Some(st)) = child.try_wait() {
+                status = Some(st);
+                break 'outer;
+            }
+            std::thread::sleep(std::time::Duration::from_micros(300));
+        }
+    }
+    let st = match status {
+        Some(s) => s,
+        None => child.wait().expect("wait lace"),
+    };
+    unsafe {
+        libc::close(master);
+    }
+    let stdout = t_out.join().unwrap_or_default();
+    let stderr = t_err.join().unwrap_or_default();
+    (Run { code: st.code(), signal: st.signal(), stdout, stderr, timed_out }, typed)
+}
